@@ -211,6 +211,11 @@ func genRef(r *Rand, p *Plan, tier string, focus string) {
 		if p.Scen.Stall && r.Chance(60) {
 			// a slow backend: the handler sits at a seam while the clock runs
 			p.Park = append(p.Park, PickOf(r, "keychain", "sink", "log:record", "log:accepting user", "log:detected user"))
+			if focus == "C07" && r.Chance(40) {
+				// the server is told to stop while a handler is still busy with a request it
+				// accepted: that request is still owed its reply
+				p.Scen.Ctl = append(p.Scen.Ctl, Ctl{Kind: "cancel", NotBefore: 4 + r.Intn(40)})
+			}
 		}
 	}
 	nCli := 1 + r.Intn(up(3))
